@@ -239,6 +239,10 @@ func (g *Prog) Expr(want Ty, d int) *gt.T {
 			return g.sliceOf(TyList, d-1)
 		}
 		n := r.Intn(4)
+		if r.Intn(5) == 0 {
+			// an all-literal nested list (a candidate for constant folding)
+			return gt.List(gt.List(gt.Int(int64(r.Intn(3))), gt.Int(0)), gt.List(gt.Str("n"), gt.Int(1)))
+		}
 		e := make([]*gt.T, n)
 		for i := range e {
 			e[i] = g.Expr(TyAny, d-1)
@@ -533,6 +537,10 @@ func (g *Prog) containerStmt(d int) *gt.T {
 		}
 	case 1:
 		if len(lists) > 0 {
+			if r.Intn(3) == 0 {
+				// depth-2 write (an error when the element is not a container)
+				return gt.Assign(g.pick([]string{"=", "=", "+="}), gt.Index(g.pick(lists), gt.Int(int64(r.Intn(2))), gt.Int(int64(r.Intn(2)))), g.Expr(TyInt, 0))
+			}
 			return gt.Assign("=", gt.Index(g.pick(lists), g.bound(d)), g.Expr(TyAny, d-1))
 		}
 	case 2:
